@@ -139,11 +139,19 @@ def dump(path):
     return t
 
 
+def out_name(i):
+    """outputs of the runs of one group: names that extend one another (annotation, annotation-1, annotation-2 ...), all in
+    one directory - each run owns exactly its own path and nothing that merely looks like it"""
+    return "annotation" if i == 0 else "annotation-%d" % i
+
+
 def do_import(p, out_path, indir):
     import gffutils
     text = text_of(p)
     kw = dict(disable_infer_genes=True, disable_infer_transcripts=True) if p["fmt"] == "gtf_noinfer" else {}
     if p["from_string"]:
+        if (p["k"] + p["n"]) % 2:
+            kw["transform"] = lambda f: f          # a transform that changes nothing: the temp copy of the text still goes away
         db = gffutils.create_db(text, out_path, from_string=True, force=True, verbose=False, **kw)
     else:
         src = os.path.join(indir, "in_%s_%d_%d_%d.txt" % (p["fmt"], p["k"], p["n"], os.getpid()))
@@ -219,7 +227,7 @@ def child_main(i, p, shared, ctl, outdir, driven, offset_ms):
             time.sleep(offset_ms / 1000.0)
         ok = True
         try:
-            do_import(p, os.path.join(outdir, "out%d.db" % i), outdir)
+            do_import(p, os.path.join(outdir, out_name(i)), outdir)
         except BaseException:
             ok = False
         with open(os.path.join(ctl, "trace.%d.json" % i), "w") as fh:
@@ -350,7 +358,7 @@ def run_impl(c):
             except Exception:
                 pass
             try:
-                res = ["ok", dump(os.path.join(outdir, "out%d.db" % i))]
+                res = ["ok", dump(os.path.join(outdir, out_name(i)))]
             except Exception as ex:
                 res = ["err", L.err_class(ex)]
             obs.append({"from_string": p["from_string"], "noinfer": p["fmt"] == "gtf_noinfer", "ok": ok and finished, "result": res,
